@@ -154,16 +154,23 @@ class OptionBag:
         for item in self.sectitems:
             optpath, val, pos = item
             s = optpath[0]
-            bk = self.basic_key(s, pos)
             if name and self._normalize_case(s) == name:
                 L.append((optpath[1:], val, pos))
-            elif bk == type_:
+            elif self._names_type(s, type_):
                 L.append((optpath[1:], val, pos))
             else:
                 R.append(item)
         if L:
             self.sectitems[:] = R
             return OptionBag(self.schema, self.schema.gettype(type_), L)
+
+    def _names_type(self, s, type_):
+        # A path component may also be a section name, which need not be
+        # a legal type name; such a component simply names no type.
+        try:
+            return self._basic_key(s) == type_
+        except ValueError:
+            return False
 
     def finish(self):
         if self.sectitems or self.keypairs:
